@@ -23,3 +23,9 @@ pub proof fn lemma_first_rep(s: Seq<Value>, j: int)
         assert(veq(s[f], s[j]));
     }
 }
+
+impl Value {
+    pub uninterp spec fn kind_spec(&self) -> ValueKind;
+    #[verifier::external_body]
+    pub fn kind(&self) -> (r: ValueKind) ensures r == self.kind_spec() { unimplemented!() }
+}
